@@ -58,7 +58,8 @@ def generate(rng, tier):
         # features not last in the file
         doc["after"] = rng.choice(MEMBER_VALUES)
     indent = rng.choice(["default", "default", 0, 1, 4, None])
-    return {"doc": doc, "kinds": kinds, "indent": indent, "suffix": rng.choice(["", "", "", ".gz", ".bz2", ".xz"])}
+    display = rng.random() < 0.4
+    return {"doc": doc, "kinds": kinds, "indent": indent, "suffix": rng.choice(["", "", "", ".gz", ".bz2", ".xz"]), "display": display}
 
 def copy_geom(g):
     return json.loads(json.dumps(g))
@@ -115,6 +116,14 @@ def execute(case):
     except Exception as e:
         res.violate(f"read:raised:{exc_name(e)}:{'no-features' if nf == 0 else 'plain'}", f"GeoJSON.read raised {e!r}; {ctx}")
         return res.dict()
+    # ---- looking at the frame (str / to_string) must leave what was read untouched
+    if case.get("display"):
+        try:
+            with capture_stdout():
+                str(data); data.to_string(max_rows=2); data.print_(max_rows=1)
+            res.cls("displayed-before-checks")
+        except Exception:
+            pass
     # ---- read clauses
     cols = dict(dict.items(data))
     if list(cols) != keys + ["geometry"]:
